@@ -104,13 +104,14 @@ func genC02(c *Ctx) {
 		for _, bare := range []string{" bare=1", ""} {
 			for n := 2; n <= 4; n++ {
 				for park := 1; park < n; park++ {
-					ends := []string{" limit=1", " cf=1", " first=1", " cancel=1"}
+					// `dl=1`: the caller's context ends by its deadline (Err() = DeadlineExceeded), not by a cancel call
+					ends := []string{" limit=1", " cf=1", " first=1", " cancel=1", " cancel=1 dl=1"}
 					if op == "ccons" {
-						ends = []string{" mf=0", " cancel=1"}
+						ends = []string{" mf=0", " cancel=1", " cancel=1 dl=1"}
 					}
 					if op == "pipe" {
 						// the consumer returns after the chunks of `park` elements ("[", v, ",", v, ...) were read
-						ends = []string{fmt.Sprintf(" reads=%d", 2*park), " cancel=1 reads=-1"}
+						ends = []string{fmt.Sprintf(" reads=%d", 2*park), " cancel=1 reads=-1", " cancel=1 reads=-1 dl=1"}
 					}
 					if op == "pipe" {
 						ends = append(ends, fmt.Sprintf(" reads=%d cerr=1", 2*park))
